@@ -719,6 +719,11 @@ func mesh2(name string) (*model2d.Mesh, int, int) {
 		m := model2d.NewMeshRect(model2d.XY(0, 0), model2d.XY(1, 1))
 		m.AddMesh(model2d.NewMeshRect(model2d.XY(3, 0), model2d.XY(5, 2)))
 		return m, 0, 2
+	case "speck":
+		// a dodecagon with a tiny square beside it: the square's vertices have the smallest areas
+		m, _, _ := mesh2("circle")
+		m.AddMesh(model2d.NewMeshRect(model2d.XY(2, 0), model2d.XY(2.01, 0.01)))
+		return m, 0, 2
 	case "circle200":
 		// finely sampled: the turning angle per vertex is 2*pi/200 = 0.0314
 		m := model2d.NewMesh()
@@ -749,6 +754,9 @@ func apply2(op string, in *model2d.Mesh) (out *model2d.Mesh, st opStep) {
 		switch op {
 		case "Decimate":
 			out, decimating = in.Decimate(in.NumSegments()-1), true
+		case "DecimateTo3", "DecimateTo1":
+			// down to a budget that some component cannot meet: it stays a triangle
+			out, decimating = in.Decimate(map[string]int{"DecimateTo3": 3, "DecimateTo1": 1}[op]), true
 		case "EliminateColinear":
 			out, decimating, exact = in.EliminateColinear(1e-8), true, true
 		case "EliminateColinearTol":
